@@ -77,6 +77,11 @@ finding("rt-rounding-nan-negative-zero", TARGETS, ["rounding-nonneg-finite-only"
 finding("rt-min-max-nan-signed-zero", TARGETS, ["minmax-const-second-operand"])
 finding("rt-sqrt-negative-raises", TARGETS, ["sqrt-of-abs"])
 finding("rt-trunc-sat-nan-raises", TARGETS, ["trunc-sat-no-nan"])
+finding("py-memory-oob-no-trap", ["python"], ["no-mem-oob"])
+finding("py-float-const-inf-nan-nameerror", ["python"], ["no-nonfinite-float-const"])
+finding("py-exported-float-global-unreadable", ["python"], ["no-exported-float-global"])
+finding("py-f32-arithmetic-not-rounded", ["python"], ["no-f32-arith"])
+finding("call-indirect-no-signature-check", ["python"], ["no-call-indirect-sig-mismatch"])
 finding("wasm2ir-loop-in-dead-code-crash", TARGETS, ["no-loop-in-dead-code"])
 finding("py-imported-func-in-elem-keyerror", ["python"], ["no-imported-func-in-elem"])
 
@@ -225,7 +230,7 @@ class Shard:
         d[k] = d.get(k, 0) + n
 
     def violation(self, summary, case):
-        if len(self.viol) < 10:
+        if len(self.viol) < int(os.environ.get("C22_DEV_VIOLCAP", "10")):
             self.viol.append({"summary": summary, "case": case})
 
     def result(self):
@@ -427,7 +432,7 @@ def matrix_pool(g, dense):
     pool = {
         "i32": [0, 1, -1, 2, 31, 32, 33, -0x80000000, 0x7FFFFFFF, 0x55555555, 255, 65536],
         "i64": [0, 1, -1, 2, 63, 64, 65, -0x8000000000000000, 0x7FFFFFFFFFFFFFFF, 0x100000000, (1 << 53) + 1,
-                -0x80000000],
+                -0x80000000, 0x1000001000000001],
         "f32": [g.f32_bits(x) for x in [0.0, -0.0, 1.0, -1.5, 0.5, -0.5, 2.5, 3.5, 1e-45, 3.4028234663852886e38,
                                         2147483648.0, -2147483904.0, 4294967296.0, 9.3e18, -9.3e18, 1.9e19, 0.1,
                                         16777217.0, -0.9, 2147483520.0, -2147483648.0, 4294967040.0]]
@@ -490,6 +495,11 @@ def matrix_skip(g, op, types, vals, flags):
         return "float-div-nonzero-divisor"
     if base in ("eq", "ne", "lt", "le") and types[0] in ("f32", "f64") and "float-cmp-gt-ge-only" in flags and nan:
         return "float-cmp-gt-ge-only"
+    if op in ("f32.convert_i64_s", "f32.convert_i64_u") and "no-f32-arith" in flags:
+        # single f32 operators are exact after the final rounding except int -> double -> single double rounding
+        x = vals[0] if op.endswith("_s") else vals[0] % (1 << 64)
+        if abs(x).bit_length() - ((abs(x) & -abs(x)).bit_length() if x else 0) >= 53:
+            return "no-f32-arith"
     return None
 
 
